@@ -22,13 +22,16 @@ MANIFEST = dict(
          "fills, whole-array memcpy, compute-once static tables), a private local array filled by one loop and read by a later one is read "
          "as the values stored (loop fission); switch statements are lowered as if-chains, loops that step "
          "pointers as the same loop over an index, a struct member that caches a function of the constructor's parameters (and that no "
-         "other function writes) is read as that function; 26 C wrappers (helpers of the translation unit inlined, also where they are "
+         "other function writes) is read as that function; a guard of D_M on a quantity the definition quantifies over (the value of D_C, a redshift) splits the "
+         "inputs into regions and the returned term must be the definition on every region with non-empty interior (strict "
+         "satisfiability witness of the guards; a region on an equality is compared after solving it); 26 C wrappers (helpers of the translation unit inlined, also where they are "
          "called inside an if-condition, then lowered as a whole, path by path, so that a helper's status code and its out-parameters "
          "stay tied): parse format, output sized from the array argument, stored term = Q(arg1[i]|arg1, arg2[i]|arg2) (after one level of "
          "inlining), complete method table; five Python dispatchers executed on abstract scalar/array arguments (private helpers followed): "
          "scalar pattern -> suffix -> converted argument (a fast path guarded by tests that establish float64 / C-contiguous / >= 1-d counts "
          "as the conversion; dispatch tables and named tuples are followed, and where the table or the bound extension methods are put "
-         "on the object by the constructor the dispatcher is run on objects built by abstract execution of the constructor), differing lengths or shapes raise before the two-array call; exhaustive abstract "
+         "on the object by the constructor the dispatcher is run on objects built by abstract execution of the constructor), differing lengths or shapes raise before the two-array call (an ordering test of the two lengths is decided for first shorter / "
+         "longer / equal, a length compared with the length of the same array is decided as the constant it is); exhaustive abstract "
          "evaluation of the parameter normaliser over (omega_k in {None,0,nonzero}) x (flat in {T,F}); h overrides H0, D_H = c/H0; copy "
          "and pickle argument order; object state by abstract execution of the constructor, accessors, copy(), __copy__, __deepcopy__ and "
          "__reduce__ on symbolic arguments with the attributes of self tracked: D_H = c/(100 h | H0), H0() * D_H = c, normalised parameters "
@@ -693,17 +696,165 @@ def _case(t, case):
     return r
 
 
-def _same_in(t, ref, case):
-    """True / False / None (a guard of the code is undecided in that case): t equals ref in the given case"""
+def _same_in(t, ref, case, why=None):
+    """True / False / None (a guard of the code is undecided in that case): t equals ref in the given case.  why: a list that
+    receives a description of the part of the case in which t is something else."""
     a = _case(t, case)
     if a is None:
         # a guard on the sign of the curvature (directly or through a cached geometry flag) that the case leaves open: decided
         # for positive, negative and zero curvature separately, which together are every real value
         ok_ = sp.Symbol("c.omega_k")
         if t is not None and ok_ not in case and ok_ in t.free_symbols:
-            return _all3(_same_in(t, ref, dict(list(case.items()) + [(ok_, v)])) for v in (POS, NEG, sp.Integer(0)))
-        return None
+            return _all3(_same_in(t, ref, dict(list(case.items()) + [(ok_, v)]), why) for v in (POS, NEG, sp.Integer(0)))
+        return _same_on_every_region(t, ref, case, why)
     return bool(_eq(a, ref.subs(case, simultaneous=True)))
+
+
+_POSITIVE_MEMBERS = ("c.DH",)
+
+
+def _eq_also_exp(a, b):
+    """term equality, also through the exponential forms of the hyperbolic and circular functions (a branch of the code that spells
+    sinh with exp is the same value)"""
+    if _eq(a, b):
+        return True
+    try:
+        d = sp.simplify((a - b).rewrite(sp.exp))
+        return d == 0 or sp.expand(d) == 0
+    except Exception:
+        return False
+
+
+def _strict(rel, truth):
+    """the interior of the set on which the relational has the given truth value, as a list of strict relationals ([] = no
+    constraint: the set is all but a thin part of the space); None when that set is thin itself (an equality that holds)"""
+    l, r = rel.lhs, rel.rhs
+    if isinstance(rel, sp.Eq):
+        return None if truth else [sp.Ne(l, r)]
+    if isinstance(rel, sp.Ne):
+        return [sp.Ne(l, r)] if truth else None
+    less = isinstance(rel, (sp.StrictLessThan, sp.LessThan))
+    if not less and not isinstance(rel, (sp.StrictGreaterThan, sp.GreaterThan)):
+        return None
+    return [sp.StrictLessThan(l, r) if less == truth else sp.StrictGreaterThan(l, r)]
+
+
+def _open_witness(conds, syms):
+    """a point (exact rationals) at which every one of the strict relationals holds, or None when none was found.  The two sides of
+    the relationals are continuous in the symbols, so the relationals then hold on a whole neighbourhood of the point: the
+    region they describe has a non-empty interior.  This is a satisfiability witness for the guards of the code, nothing is
+    concluded from the value the code computes there; not finding one proves nothing."""
+    import itertools
+    ks = sorted({abs(sp.Rational(str(n))) for c in conds for n in c.atoms(sp.Number) if n != 0 and n.is_finite})
+    mags = set(ks) | {k / 2 for k in ks} | {2 * k for k in ks} | {(a + b) / 2 for a, b in zip(ks, ks[1:])} | {sp.Integer(1)}
+    syms = sorted(syms, key=lambda x: x.name)
+    cands = []
+    for v in syms:
+        m = sorted(mags)
+        cands.append(m if v.is_positive else ([sp.Integer(0)] + m + [-x for x in m]))
+    n = 0
+    for pt in itertools.product(*cands):
+        n += 1
+        if n > 4000:
+            return None
+        sub = dict(zip(syms, pt))
+        try:
+            if all(c.subs(sub) == sp.true for c in conds):
+                return sub
+        except (TypeError, ValueError, ZeroDivisionError):
+            continue
+    return None
+
+
+def _same_on_every_region(t, ref, case, why=None):
+    """t equals ref in the given case on every region into which the guards the case leaves open divide the inputs.  Such a guard
+    tests a quantity the definitions quantify over (a distance, a redshift): the definition is the same on both sides of it, so
+    the value of the code must be the reference on each side.  True / False / None: False only when on a region with non-empty
+    interior (a witness point satisfies its guards strictly) the value is not the reference term; a region that is thin (an
+    equality holds on it) is compared after solving the equality; None when guards stay undecided, a region cannot be shown to
+    be inhabited, or there are too many of them."""
+    import itertools
+    if t is None:
+        return None
+    try:
+        r = t.subs(case, simultaneous=True)
+        want = ref.subs(case, simultaneous=True)
+        # values of callees are any real number (their definitions are other rules' business); D_H and, in a curved model,
+        # sqrt|Omega_k|/D_H are positive (cosmo_new::tcfac, object_state)
+        names = {}
+        apps = sorted((r.atoms(sp.core.function.AppliedUndef) | want.atoms(sp.core.function.AppliedUndef)), key=lambda x: -len(str(x)))
+        for k, f in enumerate(a_ for a_ in apps if not any(a_ is not b_ and b_.has(a_) for b_ in apps)):
+            names[f] = sp.Symbol("v%d_%s" % (k, f.func.__name__), real=True)
+        flat = sp.Symbol("c.flat")
+        for m in _POSITIVE_MEMBERS + (("c.tcfac",) if case.get(flat) == 0 else ()):
+            names[sp.Symbol(m)] = sp.Symbol(m + "_pos", positive=True)
+        back = {v: k for k, v in names.items()}
+        r, want = r.subs(names, simultaneous=True), want.subs(names, simultaneous=True)
+        for s_ in sorted((r.free_symbols | want.free_symbols) - set(back), key=lambda x: x.name):
+            if s_.is_real is None:
+                rs = sp.Symbol(s_.name, real=True)
+                names[s_], back[rs] = rs, s_
+        r, want = r.subs(names, simultaneous=True), want.subs(names, simultaneous=True)
+        if r.has(sp.Piecewise):
+            r = sp.piecewise_fold(r)
+    except Exception:
+        return None
+    atoms = sorted(r.atoms(sp.core.relational.Relational), key=str)
+    if not atoms or len(atoms) > 4:
+        return None
+    verdicts = []
+    for truth in itertools.product((True, False), repeat=len(atoms)):
+        try:
+            v = r.xreplace({a_: (sp.true if b_ else sp.false) for a_, b_ in zip(atoms, truth)})
+            if v.has(sp.Piecewise):
+                v = sp.piecewise_fold(v)
+        except Exception:
+            verdicts.append(None)
+            continue
+        if v.has(sp.Piecewise) or v.atoms(sp.core.relational.Relational) or v is sp.nan:
+            verdicts.append(None)
+            continue
+        if _eq_also_exp(v, want):
+            verdicts.append(True)
+            continue
+        # the value differs from the reference term: does the region exist, and is it more than a thin set?
+        region = [(_strict(a_, b_), a_, b_) for a_, b_ in zip(atoms, truth)]
+        thin = [a_ for st_, a_, b_ in region if st_ is None]
+        if thin:
+            # on an equality: compared after solving it for a callee value or a symbol (never a contradiction: whether the rest
+            # of the region is inhabited is not looked at)
+            okthin = None
+            e_ = thin[0]
+            for var in sorted((e_.lhs - e_.rhs).free_symbols, key=lambda x: (not x.name.startswith("v"), x.name)):
+                try:
+                    sol = sp.solve(e_.lhs - e_.rhs, var, dict=True)
+                except Exception:
+                    continue
+                if len(sol) == 1 and _eq_also_exp(v.subs(sol[0]), want.subs(sol[0])):
+                    okthin = True
+                    break
+            verdicts.append(okthin)
+            continue
+        conds = [c for st_, _, _ in region for c in st_]
+        try:
+            if sp.simplify_logic(sp.And(*conds)) == sp.false:
+                continue            # no such region
+        except Exception:
+            pass
+        syms = set().union(*[c.free_symbols for c in conds]) if conds else set()
+        try:
+            if len(syms) == 1 and not any(isinstance(c, sp.Ne) for c in conds) and sp.reduce_inequalities(conds, list(syms)) == sp.false:
+                continue            # the guards exclude each other: no such region (dead code)
+        except Exception:
+            pass
+        pt = _open_witness(conds, syms) if len(syms) <= 3 else None
+        if pt is None:
+            verdicts.append(None)
+            continue
+        verdicts.append(False)
+        if why is not None:
+            why.append("where %s it is %s, not %s" % (" and ".join(str(c.subs(back, simultaneous=True)) for c in conds), v.subs(back, simultaneous=True), want.subs(back, simultaneous=True)))
+    return _all3(verdicts)
 
 
 def _all3(vals):
@@ -871,10 +1022,13 @@ def formulas(chk, lib):
     chk.ob("R11.1", "Dc", _eq(t, DH * Fn["ez_inverse_integral"](c, zmin, zmax)) if t is not None else None, W, "D_C = D_H * integral of 1/E (found %s)" % t)
     t = low("Dm")
     dc = Fn["Dc"](c, zmin, zmax)
-    ok = _all3([_same_in(t, sp.sinh(dc * tc) / tc, {flat: 0, ok_: POS}), _same_in(t, sp.sin(dc * tc) / tc, {flat: 0, ok_: NEG}), _same_in(t, dc, {flat: 1})])
-    chk.ob("R11.1", "Dm::three-arms", ok, W, "D_M = sinh(D_C t)/t (Ok>0), sin(D_C t)/t (Ok<0), D_C (flat), t = sqrt|Ok|/D_H (found %s)" % t)
-    okc = _all3([_same_in(t, dc, {flat: 1, ok_: POS}), _same_in(t, dc, {flat: 1, ok_: NEG}), _same_in(t, sp.sinh(dc * tc) / tc, {flat: 0, ok_: POS})])
-    chk.ob("R11.1", "Dm::arm-conditions", okc, W, "sinh arm for Omega_k > 0, curved arms only when not flat (found %s)" % t)
+    why = []
+    ok = _all3([_same_in(t, sp.sinh(dc * tc) / tc, {flat: 0, ok_: POS}, why), _same_in(t, sp.sin(dc * tc) / tc, {flat: 0, ok_: NEG}, why), _same_in(t, dc, {flat: 1}, why)])
+    chk.ob("R11.1", "Dm::three-arms", ok, W, "D_M = sinh(D_C t)/t (Ok>0), sin(D_C t)/t (Ok<0), D_C (flat), t = sqrt|Ok|/D_H, for every value of D_C%s (found %s)" % (
+        ": " + "; ".join(sorted(set(why))) if why else "", t))
+    why = []
+    okc = _all3([_same_in(t, dc, {flat: 1, ok_: POS}, why), _same_in(t, dc, {flat: 1, ok_: NEG}, why), _same_in(t, sp.sinh(dc * tc) / tc, {flat: 0, ok_: POS}, why)])
+    chk.ob("R11.1", "Dm::arm-conditions", okc, W, "sinh arm for Omega_k > 0, curved arms only when not flat%s (found %s)" % (": " + "; ".join(sorted(set(why))) if why else "", t))
     t = low("Da")
     chk.ob("R11.1", "Da", _eq(t, Fn["Dm"](c, zmin, zmax) / (1 + zmax)) if t is not None else None, W, "D_A = D_M/(1+z) (found %s)" % t)
     t = low("Dl")
@@ -1936,6 +2090,14 @@ class _Interp:
             if v.key not in self.dec:
                 raise _Need(v.key)
             return self.dec[v.key] == v.pol
+        if isinstance(v, _Tag) and v.kind == "lencmp":
+            if "lengths-differ" not in self.dec:
+                raise _Need("lengths-differ")
+            if not self.dec["lengths-differ"]:
+                return v.when_equal
+            if "lengths-first-shorter" not in self.dec:
+                raise _Need("lengths-first-shorter")
+            return v.when_first_shorter if self.dec["lengths-first-shorter"] else not v.when_first_shorter
         if v is None or isinstance(v, (bool, int, float, str, tuple)):
             return bool(v)
         if isinstance(v, sp.Basic):
@@ -2122,6 +2284,18 @@ class _Interp:
             if isinstance(a, bool) and isinstance(b, bool):
                 return (a is b) if isinstance(op, ast.Is) else (a is not b)
             return _UNKNOWN
+        if isinstance(a, _Tag) and isinstance(b, _Tag) and a.kind == b.kind and a.kind in ("len", "shape") and a.of == b.of \
+                and isinstance(op, (ast.Eq, ast.NotEq, ast.Lt, ast.LtE, ast.Gt, ast.GtE)):
+            # the length (shape) of an array compared with the length (shape) of the same array: the two operands are the same
+            # value for every input, so the test is decided -- it does not relate the two arguments to each other
+            _SELF_COMPARED.append("the %s of %s is compared with itself" % ("length" if a.kind == "len" else "shape", a.of))
+            return isinstance(op, (ast.Eq, ast.LtE, ast.GtE))
+        if isinstance(a, _Tag) and isinstance(b, _Tag) and a.kind == b.kind == "len" and a.of != b.of and isinstance(op, (ast.Lt, ast.LtE, ast.Gt, ast.GtE)):
+            # an ordering test on the two lengths: decided in each of the three cases equal / first shorter / first longer, which
+            # together are every pair of lengths (a one-sided test rejects only one of the two ways the lengths can differ)
+            first_is_a = a.of < b.of
+            t = type(op) if first_is_a else {ast.Lt: ast.Gt, ast.Gt: ast.Lt, ast.LtE: ast.GtE, ast.GtE: ast.LtE}[type(op)]
+            return _Tag("lencmp", when_equal=t in (ast.LtE, ast.GtE), when_first_shorter=t in (ast.Lt, ast.LtE))
         if isinstance(op, (ast.Eq, ast.NotEq)):
             if isinstance(a, _Tag) and isinstance(b, _Tag) and a.kind == b.kind and a.kind in ("len", "shape") and a.of != b.of:
                 # arrays of different lengths have different shapes: a test on the shapes rejects at least what a test on the
@@ -2232,6 +2406,10 @@ class _Interp:
         return _UNKNOWN
 
 
+# what the interpreter noticed about tests that compare a property of an argument with the same property of the same argument
+_SELF_COMPARED = []
+
+
 class _Return(Exception):
     def __init__(self, value):
         self.value = value
@@ -2320,7 +2498,9 @@ def dispatch(chk, repo):
             for s2 in (True, False):
                 suffix = {(True, True): "", (False, True): "_vec1", (True, False): "_vec2", (False, False): "_2vec"}[(s1, s2)]
                 tag = "%s[%s %s,%s %s]" % (meth, a1, "scalar" if s1 else "array", a2, "scalar" if s2 else "array")
+                del _SELF_COMPARED[:]
                 outs = _run_paths(chk, repo, fi, [_Arg(a1, s1), _Arg(a2, s2)], "R11.4", tag + "::selects-" + cq + suffix, on_object=True)
+                selfcmp = sorted(set(_SELF_COMPARED))
                 if outs is None:
                     continue
                 # paths on which two array arguments were found to differ in length are judged by the rejection rule below
@@ -2349,11 +2529,14 @@ def dispatch(chk, repo):
                 if not s1 and not s2:
                     differ = [o for o in outs if o["dec"].get("lengths-differ")]
                     okg = bool(differ) and all(o["kind"] == "raise" and not o["calls"] for o in differ)
-                    if not differ and unknown_reject:
-                        # no comparison of the two lengths was recognised, but some test the interpreter cannot decide rejects
-                        # the arguments before the call: that may be the length check
+                    if not okg and unknown_reject:
+                        # no comparison of the two lengths was recognised (or only one that rejects part of the unequal pairs), but
+                        # some test the interpreter cannot decide rejects the arguments before the call: that may be the (rest of
+                        # the) length check
                         okg = None
-                    chk.ob("R11.4", tag + "::length-mismatch-rejected", okg, fi.where(), "different lengths raise before the two-array call (paths with differing lengths: %s)" % [(o["kind"], [n for n, _, _ in o["calls"]]) for o in differ])
+                    chk.ob("R11.4", tag + "::length-mismatch-rejected", okg, fi.where(), "different lengths of %s and %s (first shorter, first longer) raise before the two-array call (paths with differing lengths: %s%s)" % (
+                        a1, a2, [(o["kind"], [n for n, _, _ in o["calls"]], "%s shorter" % min(a1, a2) if o["dec"].get("lengths-first-shorter") else "%s longer" % min(a1, a2) if "lengths-first-shorter" in o["dec"] else "") for o in differ],
+                        "; no test relates the two lengths to each other" + (": " + ", ".join(selfcmp) if selfcmp else "") if not differ else ""))
         def returns_result(o):
             return o["kind"] == "return" and isinstance(o["value"], _Tag) and o["value"].kind == "extresult" and o["value"].idx == len(o["calls"]) - 1
 
